@@ -362,6 +362,14 @@ def run(ctx) -> None:
                 if not ok and isinstance(p, ast.Assign) and isinstance(p.targets[0], ast.Name):
                     nm = p.targets[0].id
                     ok = any(isinstance(x, ast.Assign) and isinstance(x.targets[0], ast.Name) and x.targets[0].id == nm and isinstance(x.value, ast.Call) and "nearest_visible" in call_names(db, x.value, f) and x.value.args and isinstance(x.value.args[0], ast.Name) and x.value.args[0].id == nm for x in walk_local(f.node))
+                # the by-name map is global: its answer stands for the container's value only if it lies inside
+                # that container (equally named outputs exist in other scopes)
+                st_ = c
+                while st_ is not None and not isinstance(st_, ast.stmt):
+                    st_ = getattr(st_, "_parent", None)
+                pv = st_.targets[0].id if isinstance(st_, ast.Assign) and isinstance(st_.targets[0], ast.Name) else None
+                scoped = pv is not None and any(isinstance(x, ast.Call) and "is_descendant_of" in call_names(db, x, f) and x.args and isinstance(x.args[0], ast.Name) and x.args[0].id == pv for x in walk_local(f.node))
+                rep.add("C20.R7", f"{f.qname}:deepest-producer-in-scope", scoped, f"{f.module.rel}:{c.lineno}", "the producer found by name is used only if it is a descendant of the expanded container" if scoped else "the producer found in the global by-name map is used without checking that it lies inside the expanded container: an equally named output of another container is taken for it and the edge starts at a node that is not declared in that state")
                 rep.add("C20.R7", f"{f.qname}:deepest-producer", ok, f"{f.module.rel}:{c.lineno}", "the deepest producer is mapped to its nearest visible representative" if ok else "the deepest producer is used as it is: when it sits inside a collapsed inner container the edge is dropped instead of being drawn from that container")
     if n7 < 3:
         raise AnalysisError(f"only {n7} deepest-producer look-ups found")
